@@ -95,14 +95,16 @@ Print Assumptions C17_rerun_step.
 
 (** ... so along any chain of runs of the job at most maxRetries re-runs happen *)
 Theorem C17_rerun_bound : forall inner v cfg fuel n adds crons (st : jstate Z),
-  (Z.of_nat (pendings (chain inner v cfg fuel n adds crons st)) <= Z.max 0 (j_retries st))%Z.
-Proof. exact chain_pending_bound. Qed.
+  forall full, (Z.of_nat (pendings (chain inner v cfg full fuel n adds crons st)) <= Z.max 0 (j_retries st))%Z.
+Proof. intros. apply chain_pending_bound. Qed.
 Print Assumptions C17_rerun_bound.
 
 Theorem C17_rerun_only_after_failure : forall inner v cfg fuel n adds crons (st : jstate Z),
   Forall (fun r => r_pending r = true -> c_rerun cfg = true /\ exists c, r_err r = PInner c)
-         (chain inner v cfg fuel n adds crons st).
-Proof. exact chain_pending_failed. Qed.
+         (chain inner v cfg false fuel n adds crons st)
+  /\ Forall (fun r => r_pending r = true -> c_rerun cfg = true /\ exists c, r_err r = PInner c)
+         (chain inner v cfg true fuel n adds crons st).
+Proof. intros. split; apply chain_pending_failed. Qed.
 Print Assumptions C17_rerun_only_after_failure.
 
 (** refutations for the pinned tree.
@@ -112,7 +114,7 @@ Print Assumptions C17_rerun_only_after_failure.
 Theorem C17_refuted_stale_error :
   let cfg := {| c_batch := 100; c_log := true; c_maxItems := 0; c_rerun := true; c_kill := None |} in
   let obs v := map (fun r => (r_err r, reported (r_log r), r_pending r))
-                   (chain (scripted [1;4;7]%Z []) v cfg 60 10 [] 0 (j_init 2)) in
+                   (chain (scripted [1;4;7]%Z []) v cfg false 60 10 [] 0 (j_init 2)) in
   obs VCurrent = [(PInner 7, [1;4;7], true); (PInner 7, [], true); (PInner 7, [], false)]%Z
   /\ obs VFixed = [(PInner 7, [1;4;7], true); (POk, [], false)]%Z.
 Proof. exact refuted_stale_error. Qed.
@@ -123,7 +125,7 @@ Print Assumptions C17_refuted_stale_error.
 Theorem C17_refuted_cleared_error :
   let cfg := {| c_batch := 1; c_log := true; c_maxItems := 0; c_rerun := true; c_kill := None |} in
   let obs v := map (fun r => (r_err r, reported (r_log r), r_pending r))
-                   (chain (scripted [0]%Z []) v cfg 60 3 [] 0 (j_init 2)) in
+                   (chain (scripted [0]%Z []) v cfg false 60 3 [] 0 (j_init 2)) in
   obs VCurrent = [(POk, [0], false)]%Z
   /\ obs VResetClears = [(POk, [0], false)]%Z
   /\ obs VFixed = [(PInner 0, [0], true); (POk, [], false)]%Z.
@@ -133,9 +135,9 @@ Print Assumptions C17_refuted_cleared_error.
 (** ... also when further failing runs (cron ticks, manual runs) arrive while re-runs are still pending:
     the executions on top of the [ext] external ones and the [queued] pending ones are bounded by the retries *)
 Theorem C17_rerun_bound_burst : forall inner v cfg fuel n ext queued (st : jstate Z),
-  (Z.of_nat (length (burst inner v cfg fuel n ext queued st))
+  forall full, (Z.of_nat (length (burst inner v cfg full fuel n ext queued st))
    <= Z.of_nat ext + Z.of_nat queued + Z.max 0 (j_retries st))%Z.
-Proof. exact burst_len_bound. Qed.
+Proof. intros. apply burst_len_bound. Qed.
 Print Assumptions C17_rerun_bound_burst.
 
 (** tie to the correspondence check: agreement with the repaired model on a case implies the executable
@@ -158,6 +160,7 @@ Print Assumptions C17_agree_implies_spec_sink.
 Theorem C17_agree_implies_spec_job_partial : forall c,
   t_job c = true -> (0 <? t_burst c)%Z = false ->
   t_log c = true -> t_failcalls c = [] -> (t_killAt c <? 0)%Z = true -> forallb (Z.leb 0) (t_bad c) = true ->
+  t_full c = false ->
   (Z.of_nat (Z.to_nat (t_crons c)) + Z.max 0 (retries0 c) < 60)%Z ->
   agree VFixed c = true -> spec_ok c = true.
 Proof. exact agree_fixed_spec_job. Qed.
